@@ -244,16 +244,19 @@ SrvItem(env) == IF env.t = 1 THEN [k |-> "close", pay |-> "", code |-> IF env.s 
                 ELSE IF env.b = 1 THEN [k |-> "body", pay |-> env.pay, code |-> -1]
                 ELSE [k |-> "hdr", pay |-> "-", code |-> -1]
 
+\* an envelope without the routing fields a relay (proxy) maintains
+NoRoute(e) == [e EXCEPT !.rec = 0, !.nxt = 0, !.rs = "", !.ns = "", !.rret = ""]
+
 ServerRead(env, n) ==
   /\ n = nSR + 1 /\ n <= Len(cw)
   \* ordered, exactly once, unchanged - except the routing record a relay (proxy) maintains
-  /\ [env EXCEPT !.rec = 0, !.nxt = 0] = [cw[n] EXCEPT !.rec = 0, !.nxt = 0]
+  /\ NoRoute(env) = NoRoute(cw[n])
   /\ nSR' = n
   /\ LET id == env.id
          s == Sin(id)
          kind == IF env.h = 1 THEN KindOfMeth(env.meth) ELSE ""
          base0 == [s EXCEPT !.n = @ + 1,
-                            !.hdrs = IF env.h = 1 THEN @ \cup {<<env.meth, env.src, env.dst>>} ELSE @]
+                            !.hdrs = IF env.h = 1 THEN @ \cup {<<env.meth, env.src, env.dst, env.rret>>} ELSE @]
      IN
      IF env.h = 0 \/ kind = "" \/ env.dst # cfg.srv
        THEN \* ignored by the server: nothing may happen for it
@@ -310,7 +313,8 @@ HStart(h, c, kind, pay, md, dlus) ==
                               hdr |-> EmptyF, pendHdr |-> EmptyF, hdrPending |-> FALSE, hdrW |-> FALSE,
                               hdrQ |-> FALSE, hdrQmd |-> EmptyF, hdrQby |-> FALSE, hsent |-> FALSE,
                               trl |-> EmptyF, ret |-> FALSE, rc |-> -1, rmsg |-> "", rndet |-> 0,
-                              rpay |-> "", trW |-> FALSE, rst |-> FALSE,
+                              \* (a reset may have been read before the handler's goroutine logged its start)
+                              rpay |-> "", trW |-> FALSE, rst |-> (kind # "unary" /\ Sin(r.id).rst),
                               dl |-> IF dlus >= 0 THEN T + ((dlus + 999) \div 1000) ELSE -1,
                               meth |-> r.meth, src |-> r.src, dst |-> r.dst])
      /\ hOf' = IF kind = "unary" THEN hOf ELSE Put(hOf, r.id, h)
@@ -419,7 +423,8 @@ ServerWrite(env) ==
         /\ env.r = 1 /\ env.t = 1 /\ env.b = 0 /\ env.rtype = "RST_STREAM"
         /\ LET s == Sin(env.id) IN
            /\ G("wire", s.must + s.may > 0)
-           /\ G("wire", env.h = 1 /\ <<env.meth, env.dst, env.src>> \in s.hdrs)
+           \* (header echoed from an envelope of that id, return route = that envelope's route record without its last hop)
+           /\ G("wire", env.h = 1 /\ <<env.meth, env.dst, env.src, env.ns>> \in s.hdrs)
            \* it never overtakes the trailer of a stream that ended normally
            /\ G("wire", env.id \in DOMAIN hOf =>
                 LET x == hnds[hOf[env.id]] IN
@@ -438,6 +443,7 @@ ServerWrite(env) ==
                 LET h == IF \E g \in cand : fits(g) THEN CHOOSE g \in cand : fits(g) ELSE CHOOSE g \in cand : TRUE
                     x == hnds[h] IN
                 /\ G("wire", RespHdrConst(env, x))
+                /\ G("wire", <<env.meth, env.dst, env.src, env.ns>> \in Sin(env.id).hdrs)    \* the return route (C16)
                 /\ G("wire", env.t = 1)
                 /\ StatusMatches(env, h)
                 /\ x.rc = OK => G("wire", env.b = 1) /\ (env.b = 1 => G("pay", env.pay = x.rpay))
@@ -477,6 +483,7 @@ ServerWrite(env) ==
         /\ env.r = 0 /\ env.t = 1 /\ env.s = 1 /\ env.code # OK /\ env.b = 0
         /\ ~\E h \in DOMAIN hnds : hnds[h].kind = "unary" /\ hnds[h].id = env.id /\ hnds[h].ret /\ ~hnds[h].trW
         /\ Sin(env.id).may > 0
+        /\ G("wire", env.h = 1 /\ <<env.meth, env.dst, env.src, env.ns>> \in Sin(env.id).hdrs)
         /\ sin' = Put(sin, env.id, [Sin(env.id) EXCEPT !.may = @ - 1])
         /\ UNCHANGED hnds
   /\ sw' = Append(sw, env)
@@ -494,7 +501,7 @@ ServerWriteRaw(env) ==
 
 ClientRead(env, n) ==
   /\ n = nCR + 1 /\ n <= Len(sw)
-  /\ [env EXCEPT !.rec = 0, !.nxt = 0] = [sw[n] EXCEPT !.rec = 0, !.nxt = 0]
+  /\ NoRoute(env) = NoRoute(sw[n])
   /\ nCR' = n
   /\ LET id == env.id
          x == Cin(id)
